@@ -1,9 +1,10 @@
 (* Extraction of the executable models to OCaml.  ExtrOcamlBasic only: N / positive / nat / ascii stay the
    extracted inductive types; the development adds no Extract Constant / Extract Inductive of its own. *)
 Require Import ExtrOcamlBasic.
-From MDK Require Import Base.Prelude Base.BSet Codec.Varint Codec.TlsVec Codec.Utf8 Codec.GroupDataExt Base.AMap Store.Contract.
+From MDK Require Import Base.Prelude Base.BSet Codec.Varint Codec.TlsVec Codec.Utf8 Codec.GroupDataExt Base.AMap Store.Contract Mdk.Engine.
 Extraction Language OCaml.
 Separate Extraction
   enc_len dec_len utf8_valid
   GroupDataExt.serialize GroupDataExt.deserialize GroupDataExt.wf GroupDataExt.roundtrip_ok
-  Contract.empty Contract.step Contract.run.
+  Contract.empty Contract.step Contract.run
+  Engine.init_client Engine.deliver Engine.committed Engine.merge_pending Engine.clear_pending Engine.sent Engine.leave_created AMap.aget.
